@@ -164,3 +164,16 @@ fn c18_url_assembly_concrete_family_all() {
     }
     kani::cover!(k == 13, "whole family visited");
 }
+
+// @prop C18
+// @fn TrackerClient::create_url, url::form_urlencoded::byte_serialize
+// @bound announce urls "http://t/a?k=/v" (a query that itself contains '/') and "http://t/a/b" (no query, deeper path); concrete hash number 3 of the family (bytes 60..79: '<', '=', '>', '?', '@', upper-case letters)
+// @outside symbolic announce urls: a harness over "http://t/a" + 4 symbolic characters from {'?','/','=','k'} ran out of 24 GB after 275 s (String::contains and the comparison loops over symbolic bytes); fragments; urls ending in '?'
+// @desc the separator decision looks at the whole announce url: '&' when a query exists even if the query contains '/', '?' when none exists; url kept verbatim; value decodes to the hash
+#[kani::proof]
+#[kani::unwind(22)]
+fn c18_separator_query_with_slash() {
+    url_for("http://t/a?k=/v", b'&', family_hash(3));
+    url_for("http://t/a/b", b'?', family_hash(3));
+    kani::cover!(true, "reached");
+}
